@@ -354,6 +354,15 @@ class NegateExpression(UnaryExpression):
         )
         if isinstance(inner, binary_types):
             inner = f"({inner})"
+        elif isinstance(inner, MathExpression) and str(inner).startswith("-"):
+            # "--a" is not valid input, and "-" directly before a literal would be read as
+            # a negative literal
+            inner = f"({inner})"
+        elif isinstance(inner, PowerExpression) and isinstance(
+            inner.left, ConstantExpression
+        ):
+            # "-2^2" would be read as (-2)^2
+            inner = f"({inner})"
         return self.with_color("-{}".format(inner))
 
     def to_math_ml_fragment(self) -> str:
@@ -599,7 +608,9 @@ class MultiplyExpression(BinaryExpression):
                 right.left, VariableExpression
             )
             if one or two:
-                return self.with_color(f"{left}{right}")
+                out = self.with_color(f"{left}{right}")
+                # "(2x)^2" must keep its parentheses, "2x^2" means 2 * x^2
+                return f"({out})" if isinstance(self.parent, PowerExpression) else out
         return super().__str__()
 
     def to_math_ml_fragment(self) -> str:
@@ -670,7 +681,16 @@ class PowerExpression(BinaryExpression):
         return np.power(one, two)
 
     def __str__(self) -> str:
-        return "{}{}{}".format(self.left, self.with_color(self.name), self.right)
+        left, right = str(self.left), str(self.right)
+        # a negation, a negative literal or another power on the left needs parentheses:
+        # "-a^2" means -(a^2) and "a^b^2" is not valid input
+        if isinstance(self.left, (NegateExpression, PowerExpression)) or left.startswith(
+            "-"
+        ):
+            left = f"({left})"
+        if isinstance(self.right, (NegateExpression, PowerExpression)):
+            right = f"({right})"
+        return "{}{}{}".format(left, self.with_color(self.name), right)
 
 
 class ConstantExpression(MathExpression):
